@@ -385,7 +385,10 @@ func trunc(s string) string {
 }
 
 // runSeq runs a sequence in a fresh environment; returns (failure key, detail).
-func runSeq(dir string, v *values, seq []op, logger *zap.Logger) (string, string, int) {
+// runSeq applies seq to the three stores. endOnly = observations are taken only after the last
+// operation (a store may behave differently when nothing reads between a write and a close or a
+// replacement); otherwise after every operation.
+func runSeq(dir string, v *values, seq []op, logger *zap.Logger, endOnly bool) (string, string, int) {
 	_ = os.MkdirAll(dir, 0755)
 	defer os.RemoveAll(dir)
 	memF, _ := crlstore.CreateStoreFactory(crlstore.Map, dir, logger)
@@ -403,6 +406,9 @@ func runSeq(dir string, v *values, seq []op, logger *zap.Logger) (string, string
 	for i, o := range seq {
 		if d := e.apply(t, o); d != "" {
 			return "op-result." + o.Kind, fmt.Sprintf("step %d %s: %s", i, o, d), checks
+		}
+		if endOnly && i < len(seq)-1 {
+			continue
 		}
 		om, od, omod := obsStore(t.mem, v), obsStore(t.disk, v), obsModel(t.mod, v)
 		checks++
@@ -426,7 +432,7 @@ func seqString(seq []op) string {
 
 func main() {
 	run := report.New("C18", "exploration")
-	run.Rule("sequences over {start, insert, ext-meta, signer, locations, replace-with(nested store), close+reopen}; exhaustive up to a bounded length over a 14-symbol alphabet (two values per letter, plus the re-insert of a stored pair with another date and other extensions), longer ones seeded random over the full value set; after every op all observations (lookups for every issuer x serial probe, meta, ext-meta, signer, locations) are compared memory <-> disk <-> abstract map; non-trivial = sequence contains >=1 insert or replace and >=1 further op; distinct = sequence text")
+	run.Rule("sequences over {start, insert, ext-meta, signer, locations, replace-with(nested store), close+reopen}; exhaustive up to a bounded length over a 14-symbol alphabet (two values per letter, plus the re-insert of a stored pair with another date and other extensions), longer ones seeded random over the full value set; after every op (and, for sequences that close or replace a store, also in a second run only after the last op) all observations (lookups for every issuer x serial probe, meta, ext-meta, signer, locations) are compared memory <-> disk <-> abstract map; non-trivial = sequence contains >=1 insert or replace and >=1 further op; distinct = sequence text")
 	run.Assume("observations compared at second precision; IsEmpty is not compared (backends define it differently and the property does not list it)", "meta times below 2050")
 	scratch, cleanup := report.Scratch("C18")
 	defer cleanup()
@@ -537,10 +543,25 @@ func main() {
 			defer wg.Done()
 			for i := range jobs {
 				seq := seqs[i]
-				key, detail, checks := runSeq(filepath.Join(scratch, fmt.Sprintf("w%d-%d", w, i)), v, seq, logger)
+				key, detail, checks := runSeq(filepath.Join(scratch, fmt.Sprintf("w%d-%d", w, i)), v, seq, logger, false)
 				run.Eval(1)
 				run.Count("observation_points_compared", int64(checks))
 				txt := seqString(seq)
+				if key == "" && len(seq) >= 2 {
+					// once more without reading in between, when the sequence closes or replaces a store
+					for _, o := range seq[1:] {
+						if o.Kind == "reopen" || o.Kind == "replace" {
+							k2, d2, c2 := runSeq(filepath.Join(scratch, fmt.Sprintf("w%d-%d-e", w, i)), v, seq, logger, true)
+							run.Eval(1)
+							run.Count("observation_points_compared", int64(c2))
+							run.Count("sequences_also_run_without_intermediate_reads", 1)
+							if k2 != "" {
+								key, detail = k2+".no-intermediate-reads", d2
+							}
+							break
+						}
+					}
+				}
 				if key != "" {
 					run.Violation(key, detail+" | sequence: "+trunc(txt), &report.Replay{Case: map[string]any{"sequence": txt, "detail": detail}})
 					continue
